@@ -48,7 +48,7 @@ CHECKS = {
              text="Soundness and completeness of cycle diagnosis over generated graphs: a cycle in the needed closure => non-zero exit, 'dependency cycle' message whose hops are real inputs, first = last, no command of the cycle run; no cycle => never the cycle message (validation back references included)."),
  "C19": dict(cat="model_checking", ref="6.C19", tech="histories with dry-run invocations (after changes, failures, crashes, early stops) from Families.tla on the real engine, and histories in which every read-only tool of the real ninja binary is run (family tools, H2); TLC trace validation against NinjaRef: no command started, sources/outputs/depfiles and both logs unchanged, dry-run listing = ExpectedRun, `-t commands` = non-phony statements of the from-scratch needed closure in an order respecting Producers, compdb output parses as JSON with quotes / control characters / non-ASCII bytes in the commands",
              text="Dry-run part on the in-process harness: tree and log meaning before/after, prediction equals the reference (superset with restat). Tool part on the real binary: commands, commands -s, inputs, multi-inputs, query, targets (all/depth/rule), rules (-d), graph, compdb (all/rule), compdb-targets, deps (all/target), missingdeps on fresh and built-then-changed trees; the builds that follow must behave as if the tools had not run (engine monitors on the same trace)."),
- "C18": dict(cat="model_checking", ref="6.C18", tech="clean scopes as TLA+ set comprehensions (RefTrace.tla CleanScope) checked by TLC on executions of the real Cleaner (all / targets / rules / -g / -n / cleandead) over generated graphs, tree states and manifest variants",
+ "C18": dict(cat="model_checking", ref="6.C18", tech="clean scopes as TLA+ set comprehensions (CleanRef.tla) checked by TLC on executions of the real Cleaner (all / targets / rules / -g / -n / cleandead) over generated graphs (cyclic ones included), tree states and manifest variants; design level: src/clean.cc transcribed (Clean.tla) and model-checked against CleanRef for every graph x subset of existing files x log content x scope, bound to the code by replaying every recorded clean on the model (CleanTrace.tla)",
              text="For every generated graph x tree state x scope: removed files lie inside the scope and outside sources / phony names / (without -g) generator outputs, every existing file of the scope is removed (dry run: counted, nothing removed), and the following build re-creates everything (C01 monitor on the same trace)."),
  "C12": dict(cat="model_checking", ref="6.C12", engine="function-reference", tech="TLA+ reference evaluator over manifest ASTs (Manifest.tla: scopes, immediate/late expansion, include vs subninja, constraints); TLC evaluates it on seed-sampled programs of a bounded grammar, renders them to text and exports (files, expected graph or error); each program (in two layouts) is parsed by the real ManifestParser and the dumped State compared; token level: a reference parser over token sequences (ManifestTok.tla) judges every single-token mutation (deletion, duplication, swap, substitution, insertion, truncation; tab indentation and bad escapes included) of valid token-level programs, one TLC state and one implementation test per mutant; character level: a reference reader of values and paths ($-escapes, continuations, CRLF, separators; Lexer.tla), every string of the bounded space a TLC state and a test of the real Lexer",
              text="One TLC state per sampled program (the reference is total and classifies every rejection); every program is an implementation test: verdict, every edge's outputs, input kinds, validations, rule, pool, evaluated command/description/depfile/rspfile/rspfile_content/flags/dyndep, defaults and pools must equal the reference; rejections must carry a file:line diagnostic.",
